@@ -52,6 +52,11 @@ def leaf_values(st):
 
 def apply_layout(a, lay):
     """Same shape (and, except for 'bcast', same values) in a different memory layout."""
+    if lay == "F":
+        return np.asfortranarray(a) if a.ndim >= 2 else a
+    if lay == "T":
+        # transposed view of a C-contiguous buffer (same values; no layout flag set for ndim >= 3 partial permutations)
+        return np.ascontiguousarray(a.T).T if a.ndim >= 2 else a
     if lay == "neg":
         return a[::-1].copy()[::-1]
     if lay == "sliced":
